@@ -68,6 +68,53 @@ impl<L: Localize> Localize for Wall<L> {
     }
 }
 
+/// The binding's own locale for a context with a zone (`PyLocation::Aware` in
+/// opening-hours-py/src/types/location.rs, mirrored line for line): a NAIVE value is a wall-clock time of the
+/// context zone, results are aware.  Since the generic `iter_range` compares `naive(datetime(start))` with
+/// the end of each range (spans skipped by a clock change are dropped, fix dfe1ade), the core context
+/// equivalent to the binding's is this one, not "evaluate on the wall clock, attach the zone afterwards".
+#[derive(Clone)]
+struct PyLoc(TzLocation<Tz>);
+
+#[derive(Clone)]
+enum MaybeAware {
+    Naive(NaiveDateTime),
+    Aware(DateTime<Tz>),
+}
+
+impl std::ops::Add<Duration> for MaybeAware {
+    type Output = MaybeAware;
+    fn add(self, rhs: Duration) -> MaybeAware {
+        match self {
+            MaybeAware::Naive(d) => MaybeAware::Naive(d + rhs),
+            MaybeAware::Aware(d) => MaybeAware::Aware(d + rhs),
+        }
+    }
+}
+
+impl Localize for PyLoc {
+    type DateTime = MaybeAware;
+    fn naive(&self, dt: MaybeAware) -> NaiveDateTime {
+        match dt {
+            MaybeAware::Naive(d) => d,
+            MaybeAware::Aware(d) => self.0.naive(d),
+        }
+    }
+    fn datetime(&self, naive: NaiveDateTime) -> MaybeAware {
+        MaybeAware::Aware(self.0.datetime(naive))
+    }
+    fn event_time(&self, date: NaiveDate, event: TimeEvent) -> NaiveTime {
+        self.0.event_time(date, event)
+    }
+}
+
+fn aware_of(m: MaybeAware, l: &TzLocation<Tz>) -> DateTime<Tz> {
+    match m {
+        MaybeAware::Aware(d) => d,
+        MaybeAware::Naive(d) => l.datetime(d),
+    }
+}
+
 // ------------------------------------------------------------------------------------------
 // arguments
 
@@ -380,6 +427,9 @@ impl Built {
     fn tz(&self, l: &TzLocation<Tz>) -> OpeningHours<TzLocation<Tz>> {
         self.oh.clone().with_context(Context::default().with_holidays(self.hol.clone()).with_locale(l.clone()))
     }
+    fn pyloc(&self, l: &TzLocation<Tz>) -> OpeningHours<PyLoc> {
+        self.oh.clone().with_context(Context::default().with_holidays(self.hol.clone()).with_locale(PyLoc(l.clone())))
+    }
     fn wall(&self, l: &TzLocation<Tz>) -> OpeningHours<Wall<TzLocation<Tz>>> {
         self.oh.clone().with_context(Context::default().with_holidays(self.hol.clone()).with_locale(Wall(l.clone())))
     }
@@ -485,10 +535,8 @@ fn op_next(b: &Built, i: &In, f: &mut Facts) -> String {
             Some(n) => attach(b, i.zone(), n, &mut Facts::new()).map(Some),
         },
         (Some(l), In::Aware(a)) => Ok(b.tz(l).next_change(a.clone()).map(Out::Aware)),
-        (Some(l), _) => match b.wall(l).next_change(w) {
-            None => Ok(None),
-            Some(n) => attach(b, None, n, &mut Facts::new()).map(Some),
-        },
+        // a naive (or absent) argument is a wall-clock time of the context zone
+        (Some(l), _) => Ok(b.pyloc(l).next_change(MaybeAware::Naive(w)).map(|m| Out::Aware(aware_of(m, l)))),
     });
     match r {
         Ok(Ok(o)) => format!("R {}", show_opt(&o)),
@@ -552,8 +600,26 @@ fn op_intervals(b: &Built, start: &In, end: Option<&In>, cap: usize, f: &mut Fac
                     out.push((Out::Aware(r.range.start.clone()), e, r.kind, comments(&r.comments)));
                 }
             }
+            (Some(l), _, _) => {
+                // naive bounds are wall-clock times of the context zone (the binding's own locale)
+                let oh = b.pyloc(l);
+                let it: Box<dyn Iterator<Item = DateTimeRange<MaybeAware>>> = match we {
+                    Some(w) => Box::new(oh.iter_range(MaybeAware::Naive(ws), MaybeAware::Naive(w))),
+                    None => Box::new(oh.iter_from(MaybeAware::Naive(ws))),
+                };
+                for r in it {
+                    if out.len() == cap {
+                        cut = true;
+                        break;
+                    }
+                    let s = aware_of(r.range.start.clone(), l);
+                    let e = aware_of(r.range.end.clone(), l);
+                    let e = if e.naive_local() == DATE_END { None } else { Some(Out::Aware(e)) };
+                    out.push((Out::Aware(s), e, r.kind, comments(&r.comments)));
+                }
+            }
             _ => {
-                // wall-clock evaluation of the same core context, the zone attached afterwards
+                // no zone in the context: wall-clock evaluation, the input's zone attached afterwards
                 let it: Box<dyn Iterator<Item = DateTimeRange<NaiveDateTime>>> = match (&b.loc, we) {
                     (None, Some(w)) => Box::new(b.nl().iter_range(ws, w)),
                     (None, None) => Box::new(b.nl().iter_from(ws)),
